@@ -219,6 +219,9 @@ def render(rng, specs, regs, fault, files, flat):
     elif sp[0] == 'import':
       b.add('import ' + sp[1], {'k': 'import', 'module': sp[1], 'found': True})
       flat.append(sp)
+    elif sp[0] == 'import_missing':
+      # only generated where skip_unknown is on: dropped, and absent from the imports the call reports
+      b.add('import ' + sp[1], {'k': 'import', 'module': sp[1], 'found': False})
     elif sp[0] == 'include':
       text, stmts, inner_hit = render(rng, sp[2], regs, fault, files, flat)
       files[sp[1]] = text
@@ -307,6 +310,18 @@ def gen_locked_case(rng):
           '_nregs': len(regs) + 1, '_block_prefix': None, '_regmods': {}}
 
 
+def gen_unlock_case(rng):
+  """A (usually failing) parse inside `with gin.unlock_config():` on a finalized configuration, the exception leaving
+  the block: the lock is what it was before the block, whatever the parse did."""
+  c = gen_case(rng)
+  n = c['_nregs']
+  regs, parse = c['ops'][:n], c['ops'][n]
+  ops = list(regs) + [{'op': 'finalize'}, {'op': 'locked'},
+                      {'op': 'unlock', 'body': [parse], 'raises': True, '_base': rng.random() < 0.3},
+                      {'op': 'config'}, {'op': 'imports'}, {'op': 'locked'}, {'op': 'registry'}]
+  return {'dom': 'gin', 'ops': ops, '_kind': 'unlock_parse', '_nregs': n, '_fault': c['_fault']}
+
+
 def gen_located_case(rng):
   """The entry file exists in several search locations / readers and every copy fails at an include
   after its first statement: exactly the copy found first is applied up to there, the error
@@ -324,12 +339,13 @@ def gen_located_case(rng):
 def gen_cases(rng, tier, boost=1):
   n = (600 if tier == 'quick' else 20000) * boost
   for k in range(n):
-    yield gen_located_case(rng) if k % 8 == 7 else (gen_locked_case(rng) if k % 16 == 3 else gen_case(rng))
+    yield gen_located_case(rng) if k % 8 == 7 else (gen_locked_case(rng) if k % 16 == 3 else (
+        gen_unlock_case(rng) if k % 16 == 11 else gen_case(rng)))
 
 
 def run_impl(case):
   out = gindom.run_impl(case)
-  if case.get('_kind') == 'located':
+  if case.get('_kind') in ('located', 'unlock_parse'):
     return out
   # fresh interpreter: the registrations, then the flattened prefix
   regs = [o for o in case['ops'] if o['op'] == 'register']
@@ -342,6 +358,13 @@ def run_impl(case):
 
 
 def oracle(case, impl):
+  if case.get('_kind') == 'unlock_parse':
+    n = case['_nregs']
+    fin, before, after = impl['out'][n], impl['out'][n + 1], impl['out'][-2]
+    if 'ok' in fin and (before != {'ok': True} or after != {'ok': True}):
+      return (f'a parse (fault: {case["_fault"]}) inside unlock_config on a finalized configuration, left by an exception: '
+              f'locked before {before}, after {after}')
+    return None
   if case.get('_kind') == 'located':
     op, res = case['ops'][0], impl['out'][0]
     order = [(p, r) for p in ([''] if op['abs'] else op['prefixes']) for r in op['readers']]
@@ -389,12 +412,17 @@ def oracle(case, impl):
 
 
 def nontrivial(case, impl):
+  if case.get('_kind') == 'unlock_parse':
+    return True
   if case.get('_kind') == 'located':
     return len(case['ops'][0]['present']) >= 2
   return case.get('_fault') is not None and case.get('_flat_text', '').strip() != ''
 
 
 def tally(stats, case, impl):
+  if case.get('_kind') == 'unlock_parse':
+    stats['unlock_parse'] = stats.get('unlock_parse', 0) + 1
+    return
   if case.get('_kind') == 'located':
     stats['located'] = stats.get('located', 0) + 1
     return
